@@ -138,6 +138,9 @@ def regeneration_check() -> dict:
         "print(' '.join(out))\n"
     )
     files = [str(p) for p in _grammar_files()]
+    if not files:
+        return {"name": "byte-identical-regeneration", "kind": "bounded stand-in", "evaluations": 0, "violation": False,
+                "fault": "no bundled grammar files found under the repository"}
     outs = []
     for seed in ("0", "12345"):
         env = dict(os.environ, PYTHONHASHSEED=seed)
